@@ -202,6 +202,18 @@ Proof.
   rewrite len_rev_append_nil in A. destruct Hi as [Hoff _]. rewrite Hoff. auto.
 Qed.
 
+Lemma opcf_capacity chunks f out : bytes_ok (concat chunks) = true ->
+  feed (f_recv reg) f_init chunks = Done f out ->
+  516 <= f_cap f /\ f_cap f <= 65539 /\ f_off f < f_cap f /\
+  (4 <= f_off f -> o_expected (rev_append (f_rdata f) []) + 4 <= f_cap f).
+Proof.
+  intros Hb H.
+  destruct (feed_ref fstate ostate (f_recv reg) (o_recv reg) o_abs f_inv f_recv_sim chunks f_init f_inv_init) as [R Hi].
+  rewrite H in R, Hi. cbn [run_abs run_inv] in R, Hi. rewrite o_abs_init in R.
+  destruct (opc_capacity reg chunks _ _ Hb R) as (A & B & C & D). cbn [o_abs o_data o_cap] in *.
+  rewrite len_rev_append_nil in C, D. destruct Hi as [Hoff _]. rewrite Hoff. auto.
+Qed.
+
 Lemma opcf_sched es : bytes_ok (arrived es) = true ->
   (exists f pend out, run_sched fstate (f_recv reg) (f_init, [], []) es = Some (f, pend, out) /\
      (pend = [] -> out = (ref_opc reg) (arrived es))) /\
